@@ -45,7 +45,7 @@ claimed = {
    'In-memory, file and S3 (fake S3Interface returning the SDK error types, three bucket/prefix pairs) backends. BFS: every reachable combination of (stored, store attempted/failed, load attempted/failed) per name, each call judged against the model and, in every new state, every name loaded and the S3 object map compared with the model (exact bucket/prefix+name addressing, exactly one client request per call). Enumeration: 31 names x 5 payloads (empty, binary, 1 MiB): round trip, missing names error, double store, two names. Engine S: Store || Store || Load of one name, preemption bound 3, on the in-memory store, on S3 and on the file backend (its package os replaced, at build time, by an in-memory file system whose calls are scheduling points; a Write is two); every writer loads right after its Store returned nil.',
    'Real S3 semantics are represented by the fake client; the file backend has no fault alphabet here (its cut-short writes are C17); its concurrent exploration runs on a model of the file system (create/open/write/rename/link/remove/chmod semantics of POSIX as far as the package uses them), and is reported as not explored if the package uses an os facility the model lacks.', 'DESIGN.md C18'),
  'C19': ('enum', 'exploration', 'exhaustive enumeration of (persisted version x perturbation); the reference decoder/order/layer functions decide which clause of the property holds, only those cases are judged',
-   'Every version of six universes x {unknown formats, missing top node, every proper prefix of the top node, every mismatched (keys,values,links) framing, rearranged/duplicated keys, reversed loader order, Height 0..H+3, BranchFactor 2/3/4/5/16}: LoadMast must return an error (not panic, not a tree), also when the top node already sits in a shared node cache (put there by an earlier load, or by the writer's own flush).',
+   'Every version of six universes x {unknown formats, missing top node, every proper prefix of the top node, every mismatched (keys,values,links) framing, rearranged/duplicated keys, reversed loader order, Height 0..H+3, BranchFactor 2/3/4/5/16}: LoadMast must return an error (not panic, not a tree), also when the top node already sits in a shared node cache (put there by an earlier load, or by the flush of the writer).',
    'Perturbations for which no clause of the property holds are not judged.', 'DESIGN.md C19'),
  'C04': ('W', 'model_checking', 'explicit-state BFS to closure on the real implementation; oracle = independently built canonical Merkle search tree, encoded and hashed independently',
    'At every MakeRoot transition of every reachable state the returned Root (link, height, size) is compared with the root of the canonical tree that the reference builder constructs from the entries the tree actually holds (layers and height rule re-derived from the definition, independent codec and BLAKE2b). All histories of the alphabet ending in the same contents are thereby compared with each other and with the reference.',
